@@ -87,6 +87,12 @@ struct Model {
     std::vector<MWell> wells;
     std::vector<Step> steps;
     bool initialEval = true;       // evaluation at report step 0 / time 0 before the first step
+    // SUMMARY section thinning: vectors that are NOT requested are still maintained in the SummaryState when they belong to the
+    // "required restart vectors"; they take their type (rate / total) from a separate table inside Summary.cpp, so the
+    // un-requested path needs its own cases.  `notRequested` mnemonics are left out of the SUMMARY section entirely;
+    // with `firstWellOnly` the well level keywords name the first well only.
+    std::set<std::string> notRequested;
+    bool firstWellOnly = false;
     const Units& u() const { return UNITS[ui]; }
 };
 
@@ -242,9 +248,9 @@ static std::string render(const Model& m, const Keywords& kw) {
     if (m.ui != 0 || (m.startDays & 1)) s << m.u().name << "\n";
     s << "DIMENS\n 10 10 3 /\nWELLDIMS\n 10 5 12 10 /\nOIL\nGAS\nWATER\nUNIFOUT\nGRID\nDX\n300*100 /\nDY\n300*100 /\nDZ\n300*10 /\nTOPS\n100*2000 /\n"
          "PERMX\n300*100 /\nPERMY\n300*100 /\nPERMZ\n300*10 /\nPORO\n300*0.2 /\nSUMMARY\n";
-    for (auto& k : kw.well) s << k << "\n/\n";
-    for (auto& k : kw.group) s << k << "\n/\n";
-    for (auto& k : kw.field) s << k << "\n";
+    for (auto& k : kw.well) { if (m.notRequested.count(k)) continue; if (m.firstWellOnly && !m.wells.empty()) s << k << "\n '" << m.wells[0].name << "' /\n"; else s << k << "\n/\n"; }
+    for (auto& k : kw.group) { if (m.notRequested.count(k)) continue; s << k << "\n/\n"; }
+    for (auto& k : kw.field) { if (m.notRequested.count(k)) continue; s << k << "\n"; }
     for (auto& k : kw.misc) s << k << "\n";
     for (auto& k : kw.conn) s << k << "\n '*' /\n/\n";
     bool anyLumped = false;
@@ -629,6 +635,11 @@ int main(int argc, char** argv) {
     rep.run_cases([&](long idx, Rng& rng) {
         using namespace model;
         Model m = generate(rng);
+        if (idx % 2 == 1) {
+            for (auto* lst : {&hv.kw.well, &hv.kw.group, &hv.kw.field}) for (auto& kw : *lst) if (rng.chance(0.5)) m.notRequested.insert(kw);
+            m.firstWellOnly = rng.chance(0.5);
+            rep.count("cases_with_thinned_summary_section");
+        }
         const std::string text = render(m, hv.kw);
         const uint64_t h = vh::fnv(text);
         std::unique_ptr<Built> b;
@@ -679,7 +690,8 @@ int main(int argc, char** argv) {
         std::vector<std::string> mustHave;
         for (auto* lst : {&hv.kw.well, &hv.kw.group, &hv.kw.field}) for (auto& kw : *lst) {
             if (!hv.evaluated.count(kw)) continue;
-            if (kw[0] == 'W') for (auto& X : m.wells) mustHave.push_back(kw + ":" + X.name);
+            if (m.notRequested.count(kw)) continue;
+            if (kw[0] == 'W') { for (auto& X : m.wells) { mustHave.push_back(kw + ":" + X.name); if (m.firstWellOnly) break; } }
             else if (kw[0] == 'G') for (auto& G : m.groups) mustHave.push_back(kw + ":" + G.name);
             else mustHave.push_back(kw);
         }
